@@ -63,6 +63,9 @@ class Plan:
 
     def lines(self):
         out = list(self.header)
+        if self.meta.get('raw'):
+            for cyc in self.cycles: out.extend(cyc)
+            return out
         for cyc in self.cycles:
             for j, s in enumerate(cyc):
                 out.append(('step ' if j == 0 else '&step ') + s)
@@ -122,7 +125,7 @@ class Result:
     def stats(self):
         for e in reversed(self.events):
             if e.kind == 'STATS':
-                return {k: int(v) for k, v in e.kv().items()}
+                return {k: int(v) for k, v in e.kv().items() if v.lstrip('-').isdigit()}
         return {}
 
     def tx(self):
@@ -157,11 +160,11 @@ def parse_result(lines):
 class Worker:
     """one 'nsim serve' process; run(plan) -> Result"""
 
-    def __init__(self, variant='asan', wall_timeout=40.0):
-        self.variant = variant; self.wall_timeout = wall_timeout; self.p = None
+    def __init__(self, variant='asan', wall_timeout=40.0, exe='nsim'):
+        self.variant = variant; self.wall_timeout = wall_timeout; self.p = None; self.exe = exe
 
     def start(self):
-        exe = os.path.join(BUILD, self.variant, 'sim', 'nsim')
+        exe = os.path.join(BUILD, self.variant, 'sim', self.exe)
         env = dict(os.environ)
         env['NSIM_MUDLIB'] = os.path.join(ROOT, 'mudlib')
         env.setdefault('NSIM_TMP', os.environ.get('TMPDIR', '/tmp'))
@@ -267,8 +270,8 @@ def generic_crash_violations(prop, res, sanitizer_counts=True):
 
 
 # ---------------------------------------------------------------------------------- build
-def build(variant='asan', quiet=True):
-    for tool in ('build_repo.sh', 'build_sim.sh'):
+def build(variant='asan', quiet=True, tools=('build_repo.sh', 'build_sim.sh')):
+    for tool in tools:
         r = subprocess.run([os.path.join(ROOT, 'tools', tool), variant], stdout=subprocess.PIPE, stderr=subprocess.PIPE, text=True)
         if r.returncode != 0:
             sys.stderr.write(r.stdout + r.stderr)
@@ -285,7 +288,7 @@ def _init(propmod_name, variant):
     global _worker, _prop
     import importlib
     _prop = importlib.import_module(propmod_name)
-    _worker = Worker(variant)
+    _worker = Worker(variant, exe=getattr(_prop, 'EXE', 'nsim'))
     _worker.start()
 
 
@@ -313,7 +316,7 @@ def _task(args):
 
 
 def run_plan_once(propmod, plan, variant='asan'):
-    w = Worker(variant)
+    w = Worker(variant, exe=getattr(propmod, 'EXE', 'nsim'))
     try:
         res = w.run(plan)
     finally:
@@ -363,7 +366,7 @@ def shrink(propmod, plan, target_cls, worker, max_runs=400):
     # header lines that are optional (opt/cfg/file) -- try dropping opts only
     hi = 0
     while hi < len(cur.header) and runs[0] < max_runs:
-        if cur.header[hi].startswith('opt '):
+        if cur.header[hi].startswith('opt ') and not getattr(propmod, 'KEEP_OPTS', False):
             cand = cur.copy(); del cand.header[hi]
             if fails(cand):
                 cur = cand; continue
@@ -392,7 +395,7 @@ def match_known(known, prop, cls):
 def run_check(propmod, prop, tier, verif_seed, n_runs, variant='asan', jobs=None, replay=None):
     """returns exit code"""
     t0 = time.time()
-    build(variant)
+    build(variant, tools=getattr(propmod, 'BUILD_TOOLS', ('build_repo.sh', 'build_sim.sh')))
     jobs = jobs or int(os.environ.get('VERIF_JOBS', '16'))
     known = load_known()
     os.makedirs(os.path.join(ROOT, 'evidence'), exist_ok=True)
@@ -459,7 +462,7 @@ def run_check(propmod, prop, tier, verif_seed, n_runs, variant='asan', jobs=None
 
     exit_code = 0
     reported = []
-    w = Worker(variant); w.start()
+    w = Worker(variant, exe=getattr(propmod, 'EXE', 'nsim')); w.start()
     try:
         for cls, idxs in new_cls[:5]:
             i = idxs[0]
@@ -539,7 +542,7 @@ def make_evidence(propmod, prop, tier, verif_seed, main, det, by_cls, known_hits
 def selftest(propmod, prop, n, verif_seed=1, variant='asan'):
     """determinism: the same seeds at two worker counts (different processes, different neighbours) must give
     bit-identical event logs"""
-    build(variant)
+    build(variant, tools=getattr(propmod, 'BUILD_TOOLS', ('build_repo.sh', 'build_sim.sh')))
     ctx = multiprocessing.get_context('fork')
     hashes = []
     for jobs in (16, 5):
